@@ -519,6 +519,25 @@ def _asarray(x, dtype=None, **k):
     return np.asarray(x, dtype=dtype)
 
 
+@implements(np.vander)
+def _vander(x, N=None, increasing=False):
+    a = unwrap(x)
+    n = len(a) if N is None else N
+    out = np.empty((len(a), n), dtype=object)
+    for i, v in enumerate(a):
+        p = 1
+        col = []
+        for k in range(n):
+            col.append(p); p = p * v
+        out[i] = col if increasing else col[::-1]
+    return SymArray(out, x._dt, x.dom)
+
+
+@implements(np.broadcast_to)
+def _broadcast_to(x, shape, **k):
+    return SymArray(np.broadcast_to(x.a, shape).copy(), x._dt, x.dom)
+
+
 @implements(np.unique)
 def _unique(x, *a, **k):
     if isinstance(x, SymArray):
